@@ -457,11 +457,46 @@ func collidingCheckSchema(r *Rng, o *Out) *jsonapi.Schema {
 	return s
 }
 
+// twinsCheckSchema: a hand-built type holding, under two different map keys, two
+// relationships with the same name that reciprocate two different relationships of another
+// type (legal for a hand-built Type: Check looks at the relationships, not at the keys);
+// consistent, or with one of the four ends bent.
+func twinsCheckSchema(r *Rng, o *Out) *jsonapi.Schema {
+	a := jsonapi.Type{Name: "a", Attrs: map[string]jsonapi.Attr{}, Rels: map[string]jsonapi.Rel{
+		"x": {FromType: "a", FromName: "x", ToOne: true, ToType: "d", ToName: "e"},
+		"y": {FromType: "a", FromName: "y", ToOne: false, ToType: "d", ToName: "e"},
+	}}
+	d := jsonapi.Type{Name: "d", Attrs: map[string]jsonapi.Attr{}, Rels: map[string]jsonapi.Rel{
+		"k1": {FromType: "d", FromName: "e", ToType: "a", ToName: "x", FromOne: true},
+		"k2": {FromType: "d", FromName: "e", ToType: "a", ToName: "y", FromOne: false},
+	}}
+	switch r.IntN(4) {
+	case 0:
+		rel := d.Rels["k2"]
+		rel.ToName = "z"
+		d.Rels["k2"] = rel
+	case 1:
+		delete(d.Rels, "k1")
+	}
+	s := &jsonapi.Schema{}
+	if r.bool() {
+		putType(s, a)
+		putType(s, d)
+	} else {
+		putType(s, d)
+		putType(s, a)
+	}
+	o.stat("check.twins")
+	return s
+}
+
 func suiteSchema15(r *Rng, n int, thorough bool, o *Out) {
 	for c := 0; c < n; c++ {
 		s := genCheckSchema(r, o)
 		if r.chance(1, 8) {
 			s = collidingCheckSchema(r, o)
+		} else if r.chance(1, 10) {
+			s = twinsCheckSchema(r, o)
 		}
 		before := sxSchema(s)
 		nOff := 0
@@ -560,6 +595,13 @@ func suiteSchema16(r *Rng, n int, thorough bool, o *Out) {
 				rel.ToName = ""
 			}
 			ops = append(ops, relop{two, rel})
+		}
+		if r.chance(1, 8) {
+			// a relationship that is its own inverse (friends <-> friends)
+			t, nm, one := names[r.IntN(nt)], r.pick(schemaNames), r.bool()
+			// (one AddRel: the relationship is both halves of its pair)
+			ops = append(ops, relop{false, jsonapi.Rel{FromType: t, FromName: nm, ToOne: one, ToType: t, ToName: nm, FromOne: one}})
+			o.stat("rels.self-inverse")
 		}
 		if r.chance(1, 4) {
 			// two one-way relationships whose type_name strings coincide and whose
